@@ -867,6 +867,11 @@ func Run(r *hk.Run) {
 		g.signDoc(unsignedDoc{text: u}, time.Unix(1400000000, 0))
 	}
 
+	// (1b') the tail of the document: compact JSON ending in }} / }]} / }"}, every short tail, the HTTP handler
+	g.compactTails()
+	g.tailEnumeration()
+	g.handlerRoundTrip()
+
 	// (1c) keys and signatures of every algorithm the library knows; every way it can refuse a signature
 	g.algorithmMatrix()
 	g.packetVariants()
